@@ -129,6 +129,14 @@ def check_knn(case, ctx):
     if case.get("int_data"):
         vals = np.round(vals)  # integer-valued data in an integer dtype: the mean of k of them is generally not an integer
     vals_arr = lay(vals, dshape, "int64" if case.get("int_data") else "float64")
+    prefit = build.small_hash(case, 13) % 3 == 0
+    if prefit:
+        # the same object was used before on a tiny survey (fewer points than k, elsewhere): nothing of that may carry over to the judged fit
+        try:
+            kn.fit((np.array([d[0, 0] - 7.0, d[0, 0] - 5.5]), np.array([d[0, 1] + 3.0, d[0, 1] + 4.0])), np.array([-17.0, 23.0]))
+            kn.predict((np.array([d[0, 0] - 6.0]), np.array([d[0, 1] + 3.5])))
+        except Exception:  # noqa: BLE001 - more neighbours than points may be refused; only the side effects matter here
+            pass
     kn.fit(tuple(P(c) for c in coords), P(vals_arr))
     qcoords = tuple(P(c) for c in build.table_views(lay(q[:, 0], qshape, cdt), lay(q[:, 1], qshape, cdt), case.get("qtable")))
     pred = np.asarray(kn.predict(qcoords))
@@ -149,7 +157,7 @@ def check_knn(case, ctx):
             raise Violation("query %r: predicted %r, %s of the values of its %d nearest data points %r is %r" % (
                 q[i].tolist(), float(flat[i]), case["reduction"], k, vals[order[:k]].tolist(), exp))
         compared += 1
-    ctx.label(case["mode"], case["reduction"], "k1" if k == 1 else ("k_all" if k == d.shape[0] else "k_mid"), "qdim%d" % len(qshape))
+    ctx.label(case["mode"], case["reduction"], "k1" if k == 1 else ("k_all" if k == d.shape[0] else "k_mid"), "qdim%d" % len(qshape), "object_used_before" if prefit else "fresh_object")
     if compared < q.shape[0]:
         ctx.label("ties_excluded")
     ctx.nt(compared > 0 and d.shape[0] >= 5)
